@@ -92,3 +92,24 @@ Definition check_queries (cs : list qcase) : list (N * N) :=
     (if q_ok c then [] else [(1%N, qid c)])) cs.
 
 Definition expected_query (c : qcase) := (qid c, eval_query (qstrict c) (qq c)).
+
+(* ---- the members of every GROUP BY bucket (C04) -------------------------------------------------------------
+   observed: for every output row of SELECT LISTAGG(rid, ',') .. GROUP BY keys the row positions listed;
+   expected: the model's buckets (first-occurrence order, members in row order).  With more than one CPU the
+   harness sorts what it observed the same way. *)
+Record bcase := mkB { bid : N; bstrict : bool; brows : list row; bkeys : list expr; bobs : res (list (list nat)) }.
+
+Definition b_ok (c : bcase) : bool :=
+  match bucket_idx (bstrict c) (bkeys c) (brows c), bobs c with
+  | Ok m, Ok o => list_eqb (list_eqb Nat.eqb) m o
+  | Err e, Err e' => err_class_same e e'
+  | _, _ => false
+  end.
+
+(* kind 5: the rows an aggregate was given are not the rows of the bucket *)
+Definition check_members (cs : list bcase) : list (N * N) :=
+  flat_map (fun c =>
+    (if forallb (forallb val_wf) (brows c) then [] else [(4%N, bid c)]) ++
+    (if b_ok c then [] else [(5%N, bid c)])) cs.
+
+Definition expected_members (c : bcase) := (bid c, bucket_idx (bstrict c) (bkeys c) (brows c)).
